@@ -147,6 +147,14 @@ def cli_case(case):
             files[case.get("manifest_dir", "") + case["manifest"]] = mtxt
         proj = root / "p"
         e2e.write_project(proj, files)
+        if case.get("inproject_links"):
+            # a second name for a source file of the project (sorting before it): the file is reached, rewritten and reported once,
+            # under its own path
+            import os
+            (proj / "pkg").mkdir(exist_ok=True)
+            for i in range(case["n"]):
+                os.symlink(proj / f"m{i}.py", proj / "pkg" / f"a_link{i}.py")
+                os.symlink(f"m{i}.py", proj / f"a_rel{i}.py")
         before = e2e.read_tree(proj)
         r = e2e.run(proj, ["--codemod-include", ",".join(cms)])
         after = e2e.read_tree(proj)
@@ -198,6 +206,8 @@ def search(ctx):
         cases.append({"layout": "plain", "n": 2, "codemods": ["pixee:python/use-defusedxml"], "manifest": m, "seed": rng.randint(0, 10**9)})
         cases.append({"layout": "plain", "n": 2, "codemods": ["pixee:python/use-defusedxml"], "manifest": m, "manifest_dir": "backend/", "seed": rng.randint(0, 10**9)})
     cases.append({"layout": "plain", "n": 2, "codemods": ["pixee:python/use-defusedxml"], "manifest": "requirements.txt", "manifest_bom": True, "seed": rng.randint(0, 10**9)})
+    for cid in ["pixee:python/remove-unnecessary-f-str", "pixee:python/numpy-nan-equality"]:
+        cases.append({"layout": "plain", "n": 2, "codemods": [cid], "manifest": None, "inproject_links": True, "seed": rng.randint(0, 10**9)})
     # a last line with trailing blanks / a blank-only last line / no terminator: what the diff calls context must be what the file has
     for text in ["requests==2.31.0\nflask>=2.0 \n", "requests\n   \n", "requests\nflask>=2\t"]:
         cases.append({"layout": "plain", "n": 2, "codemods": ["pixee:python/use-defusedxml"], "manifest": "requirements.txt", "manifest_text": text, "seed": rng.randint(0, 10**9)})
